@@ -1081,3 +1081,21 @@ def uses_part(term, op, k):
             if inner is not None and isinstance(inner, T.App) and inner.op == op:
                 return True
     return False
+
+
+def drop_bias_broadcast(term, bias_names):
+    """A rank-1 parameter (a bias) with size-1 axes put in front of its only axis - or taken away again - broadcasts against a
+    batch exactly as the bare parameter does: unsq(d, ax <= -2, ..) and sq(d, ax <= -2) are d.  `bias_names`: the symbols of the
+    networks' rank-1 parameters (by the shapes the role table gives).  Used by rules that compare sums in which the same bias
+    was wrapped differently on the two sides ((x + d) spread over rows minus (x' + d) spread over columns)."""
+    if term is None or not bias_names:
+        return term
+
+    def fn(a):
+        if isinstance(a, T.App) and a.op in ("unsq", "sq") and len(a.args) >= 2 and isinstance(a.args[1], int) and a.args[1] <= -2 and hasattr(a.args[0], "single_atom"):
+            x = a.args[0].single_atom()
+            if isinstance(x, T.Sym) and x.name in bias_names:
+                return a.args[0]
+        return None
+
+    return T.subst(term, fn)
